@@ -146,7 +146,7 @@ func merge(
 		case hasNewValue && hasOldValue:
 			// merge and compress
 			encoder.AppendTime(bit.One)
-			encoder.AppendValue(math.Float64bits(fieldType.AggType().Aggregate(newValue, oldValue)))
+			encoder.AppendValue(math.Float64bits(fieldType.AggType().Aggregate(oldValue, newValue)))
 		case !hasNewValue && hasOldValue:
 			// compress old value
 			encoder.AppendTime(bit.One)
